@@ -133,7 +133,8 @@ fn fingerprint(w: &mut World) -> u64 {
     let mut h = fnv_str(&format!("{:?}", w.sim.device_handler));
     for a in PROBES { let v = w.sim.read_mem(a, MemAccessCtx::omnipotent()).map(|x| x.get()).unwrap_or(0xEEEE); h = mix(h, (a as u64) << 16 | v as u64); }
     // device tags are history-dependent names: fold in which tag answers at each probe (already in the values) and how many devices exist
-    mix(h, w.next_tag as u64)
+    // the property speaks about history (ids are NEVER reused), so the number of ids issued so far is part of the state even if the implementation forgets it
+    mix(mix(h, w.next_tag as u64), w.model.devs.len() as u64)
 }
 fn visit(h: &[u16]) -> Visit {
     let r = catch(|| {
@@ -154,7 +155,7 @@ pub fn run(ctx: &Ctx) -> Report {
     if capped { rep.exhaustive = false; }
     rep.bound("depth", Json::i(depth as u64)); rep.bound("alphabet", Json::i(OPS.len() as u64)); rep.bound("frontier_at_bound", Json::i(frontier));
     rep.require(states > 500, "the port-table state space was explored");
-    rep.assume("two histories are merged only if the real handler's Debug output, the probe reads at 7 ports and the number of devices created agree");
+    rep.assume("two histories are merged only if the real handler's Debug output, the probe reads at 7 ports, the number of devices created and the number of ids issued so far (reference state) agree");
     rep
 }
 pub fn replay(case: &str) -> Option<String> {
